@@ -217,12 +217,14 @@ IOREC = {"drop_glue::<std::io::Error>": 0}
 prop("C20", title="The golden-file helper compares faithfully and only writes when told to",
      level_text="Bounded model checking of Golden::new / Golden::assert with the file system and environment replaced by nondeterministic "
                 "stubs: for every golden content and every `got` of <= 2 ASCII bytes (CR and LF included), UPDATE_GOLDEN unset / empty / "
-                "non-empty: without UPDATE_GOLDEN `assert` returns when got equals the CRLF-normalised content and nothing is written or "
-                "changed; with it, exactly one write happens and the file afterwards holds exactly `got`. Outside: the missing-file paths "
-                "(std::io::Error keeps its kind in pointer tag bits that CBMC cannot decode; spurious memory-safety reports), the 'differs => "
-                "panics' direction (same reason on the panic path), longer contents, the real file system.",
+                "non-empty: without UPDATE_GOLDEN `assert` returns when got equals the CRLF-normalised content, never returns when it differs, "
+                "and nothing is written or changed either way; with it, exactly one write happens and the file afterwards holds exactly `got`. "
+                "Outside: the missing-file paths (std::io::Error keeps its kind in pointer tag bits that CBMC cannot decode; spurious "
+                "memory-safety reports), longer contents, the real file system.",
      level_note="Trusted: Kani/CBMC; stubs for std::fs::read_to_string, std::fs::write, std::env::var (one-file symbolic file system), "
-                "str::replace (naive left-to-right model; std's TwoWaySearcher does not finish), fmt::format; file assumed present.")
+                "str::replace (naive left-to-right model; std's TwoWaySearcher does not finish), Result::unwrap_or_default (model that "
+                "does not drop the VarError and returns an empty String with spare capacity: Kani 0.68 mis-tracks the zero-capacity "
+                "constant of String::new()), fmt::format; file assumed present.")
 for nm in ("c20_no_update_equal", "c20_update"):
     H("C20", file="golden/lib.rs", name=nm, timeout=900, expect_s=45, recursion=IOREC, env={"VERIF_GOLDEN_N": 2},
       functions=["Golden::new", "Golden::assert", "read_as_utf8", "is_update_golden"],
@@ -279,3 +281,11 @@ H("C12", file="core/intern.rs", name="c12_intern_sequence_3", timeout=900, expec
   oracle="reference table name -> Unregistered | Canonical | Alias(c): return values, errors, pointer identity of canonical values")
 H("C12", file="core/intern.rs", name="c12_intern_sequence_4", tier="thorough", timeout=3000, expect_s=600,
   functions=["InternStore::*"], bound="every sequence of 4 operations", models=[MAP, BUMP], oracle="same")
+
+H("C20", file="golden/lib.rs", name="c20_no_update_mismatch", timeout=900, expect_s=45, recursion=IOREC, env={"VERIF_GOLDEN_N": 2},
+  functions=["Golden::new", "Golden::assert"],
+  bound="content and got: every ASCII string (no NUL) of length 0..=2 with got != normalise(content); UPDATE_GOLDEN unset or empty",
+  models=["fs/env stubs", "str::replace model", FMT],
+  expected_failures=[{"desc": "message formatted at runtime", "loc": "Golden::assert"}],
+  oracle="Golden::assert never returns (a harness-level panic placed after the call must be unreachable); the only failing solver "
+         "obligation is assert's own panic; no write happens before it")
